@@ -197,7 +197,7 @@ pub struct Shared<G: AffineRepr> {
 }
 
 impl<G: AffineRepr> Shared<G> {
-    fn draw(&mut self, kind: &str) -> FOf<G> {
+    pub fn draw(&mut self, kind: &str) -> FOf<G> {
         if self.recording {
             let v = self.src.fresh(kind);
             self.tape.push(v);
@@ -277,7 +277,7 @@ impl<G: AffineRepr> Shared<G> {
         }
         (lc, val, terms)
     }
-    fn set_var(&mut self, var: Variable<FOf<G>>, val: FOf<G>) {
+    pub fn set_var(&mut self, var: Variable<FOf<G>>, val: FOf<G>) {
         let k = vkey(&var);
         for e in self.vars.iter_mut() {
             if vkey(&e.0) == k {
